@@ -2,7 +2,9 @@
   Model/Skeletons — the shape of the Go functions the hand-written models mirror, as the models'
   authors read it: for each function the control-flow skeleton (conditions verbatim, loops, switch and
   select arms, returns, defers, channel operations, counter updates, assignments to the tracked fields,
-  calls). `harness/extract` (f10.go) regenerates the same skeletons from /repo on every run
+  calls); local names (receiver, parameters, results, :=, var, range and function-literal parameters) are replaced by
+  v0, v1, … in order of declaration, so that renaming a local changes nothing; fields, methods and package-level names
+  keep their names. `harness/extract` (f10.go, alpha.go) regenerates the same skeletons from /repo on every run
   (Generated/F10.lean) and the `facts_skeleton_*` lemmas in Props/ compare the two with `decide`: when
   one of these functions changes shape, the model that mirrors it is no longer known to be its image and
   the property's check says so. The notes say which model element each part corresponds to.
@@ -29,64 +31,64 @@ namespace Coercion.Skeletons
 /-- expected skeleton of ExecuteSequences in internal/execute/sm/sm.go -/
 def executeSequences : List String := [
   "func {",
-  "if h.block.ToleratedFailures >= 0 && failures.Load() > int64(h.block.ToleratedFailures) {",
+  "if v2.block.ToleratedFailures >= 0 && v3.Load() > int64(v2.block.ToleratedFailures) {",
   "return",
   "}",
   "return",
   "}",
-  "range h.block.Sequences {",
-  "if seq.State.Status == workflow.Failed {",
-  "call failures.Add",
+  "range v2.block.Sequences {",
+  "if v5.State.Status == workflow.Failed {",
+  "call v3.Add",
   "}",
   "}",
   "call Limited",
   "call context.Pool",
-  "call pool.Group",
-  "for i < len(h.block.Sequences) {",
-  "if seq.State.Status == workflow.Completed || seq.State.Status == workflow.Failed {",
+  "call v7.Group",
+  "for v9 < len(v2.block.Sequences) {",
+  "if v5.State.Status == workflow.Completed || v5.State.Status == workflow.Failed {",
   "continue",
   "}",
   "call Data.contChecksPassing",
-  "if err != nil {",
-  "call g.Wait",
-  "set h.block.State.Status = workflow.Failed",
-  "set req.Data.err = err",
-  "set req.Next = s.BlockDeferredChecks",
+  "if v10 != nil {",
+  "call v8.Wait",
+  "set v2.block.State.Status = workflow.Failed",
+  "set v1.Data.err = v10",
+  "set v1.Next = v0.BlockDeferredChecks",
   "return",
   "}",
-  "if exceededFailures() {",
-  "call g.Wait",
-  "set h.block.State.Status = workflow.Failed",
-  "set req.Data.err = <error>",
-  "set req.Next = s.BlockDeferredChecks",
+  "if v4() {",
+  "call v8.Wait",
+  "set v2.block.State.Status = workflow.Failed",
+  "set v1.Data.err = <error>",
+  "set v1.Next = v0.BlockDeferredChecks",
   "return",
   "}",
-  "send limiter",
-  "call g.Go",
+  "send v6",
+  "call v8.Go",
   "func {",
   "defer {",
   "func {",
-  "recv limiter",
+  "recv v6",
   "}",
   "}",
-  "if exceededFailures() {",
+  "if v4() {",
   "return",
   "}",
-  "call s.execSeq",
-  "if err != nil {",
-  "call failures.Add",
+  "call v0.execSeq",
+  "if v10 != nil {",
+  "call v3.Add",
   "}",
   "return",
   "}",
   "}",
-  "call g.Wait",
-  "if h.block.ToleratedFailures >= 0 && failures.Load() > int64(h.block.ToleratedFailures) {",
-  "set h.block.State.Status = workflow.Failed",
-  "set req.Data.err = <error>",
-  "set req.Next = s.BlockDeferredChecks",
+  "call v8.Wait",
+  "if v2.block.ToleratedFailures >= 0 && v3.Load() > int64(v2.block.ToleratedFailures) {",
+  "set v2.block.State.Status = workflow.Failed",
+  "set v1.Data.err = <error>",
+  "set v1.Next = v0.BlockDeferredChecks",
   "return",
   "}",
-  "set req.Next = s.BlockPostChecks",
+  "set v1.Next = v0.BlockPostChecks",
   "return"
 ]
 
@@ -95,24 +97,24 @@ def runContChecks : List String := [
   "defer {",
   "call close",
   "}",
-  "if delay <= 0 {",
+  "if v4 <= 0 {",
   "}",
   "call time.NewTicker",
   "defer {",
-  "call t.Stop",
+  "call v5.Stop",
   "}",
   "for  {",
-  "call t.Reset",
+  "call v5.Reset",
   "select {",
   "comm:",
-  "recv ctx.Done()",
-  "call ctx.Done",
+  "recv v1.Done()",
+  "call v1.Done",
   "return",
   "comm:",
-  "recv t.C",
-  "call s.runChecksOnce",
-  "send resultCh",
-  "if err != nil {",
+  "recv v5.C",
+  "call v0.runChecksOnce",
+  "send v3",
+  "if v6 != nil {",
   "return",
   "}",
   "}",
@@ -123,79 +125,79 @@ def runContChecks : List String := [
 def blockEnd : List String := [
   "defer {",
   "func {",
-  "call s.now",
-  "set h.block.State.End = s.now()",
+  "call v0.now",
+  "set v2.block.State.End = v0.now()",
   "call store.UpdateBlock",
-  "if err != nil {",
+  "if v3 != nil {",
   "}",
   "}",
   "}",
-  "if h.block.BypassChecks != nil && h.block.BypassChecks.State.Status == workflow.Completed {",
-  "set h.block.State.Status = workflow.Completed",
+  "if v2.block.BypassChecks != nil && v2.block.BypassChecks.State.Status == workflow.Completed {",
+  "set v2.block.State.Status = workflow.Completed",
   "} else {",
-  "if h.contCancel != nil {",
-  "call h.contCancel",
+  "if v2.contCancel != nil {",
+  "call v2.contCancel",
   "}",
-  "if h.block.ContChecks != nil && h.contCancel != nil {",
-  "range h.contCheckResult {",
-  "if err != nil {",
+  "if v2.block.ContChecks != nil && v2.contCancel != nil {",
+  "range v2.contCheckResult {",
+  "if v3 != nil {",
   "break",
   "}",
   "}",
-  "if err != nil {",
-  "set h.block.State.Status = workflow.Failed",
-  "set req.Data.err = err",
-  "set req.Next = s.PlanDeferredChecks",
+  "if v3 != nil {",
+  "set v2.block.State.Status = workflow.Failed",
+  "set v1.Data.err = v3",
+  "set v1.Next = v0.PlanDeferredChecks",
   "return",
   "}",
   "}",
-  "if h.block.State.Status == workflow.Running {",
-  "set h.block.State.Status = workflow.Completed",
+  "if v2.block.State.Status == workflow.Running {",
+  "set v2.block.State.Status = workflow.Completed",
   "} else {",
-  "set h.block.State.Status = workflow.Failed",
-  "set req.Next = s.PlanDeferredChecks",
+  "set v2.block.State.Status = workflow.Failed",
+  "set v1.Next = v0.PlanDeferredChecks",
   "return",
   "}",
   "call after",
-  "if err != nil {",
-  "set h.block.State.Status = workflow.Stopped",
-  "set req.Data.err = err",
-  "set req.Next = s.PlanDeferredChecks",
+  "if v3 != nil {",
+  "set v2.block.State.Status = workflow.Stopped",
+  "set v1.Data.err = v3",
+  "set v1.Next = v0.PlanDeferredChecks",
   "return",
   "}",
   "}",
-  "if len(req.Data.blocks) == 1 {",
+  "if len(v1.Data.blocks) == 1 {",
   "} else {",
   "}",
-  "set req.Next = s.ExecuteBlock",
+  "set v1.Next = v0.ExecuteBlock",
   "return"
 ]
 
 /-- expected skeleton of PlanPostChecks in internal/execute/sm/sm.go -/
 def planPostChecks : List String := [
-  "set req.Next = s.PlanDeferredChecks",
+  "set v1.Next = v0.PlanDeferredChecks",
   "defer {",
   "func {",
   "call store.UpdatePlan",
-  "if err != nil {",
+  "if v2 != nil {",
   "}",
   "}",
   "}",
-  "if req.Data.contCancel != nil {",
+  "if v1.Data.contCancel != nil {",
   "call Data.contCancel",
   "}",
-  "if req.Data.Plan.ContChecks != nil {",
-  "range req.Data.contCheckResult {",
-  "if err != nil {",
-  "set req.Data.err = err",
+  "if v1.Data.Plan.ContChecks != nil {",
+  "range v1.Data.contCheckResult {",
+  "if v2 != nil {",
+  "set v1.Data.err = v2",
   "return",
   "}",
   "}",
   "}",
-  "if req.Data.Plan.PostChecks != nil && !isCompleted(req.Data.Plan.PostChecks) {",
-  "call s.runChecksOnce",
-  "if err != nil {",
-  "set req.Data.err = err",
+  "if v1.Data.Plan.PostChecks != nil && !isCompleted(v1.Data.Plan.PostChecks) {",
+  "call v0.runChecksOnce",
+  "if v2 != nil {",
+  "set v1.Data.err = v2",
   "return",
   "}",
   "}",
@@ -206,27 +208,27 @@ def planPostChecks : List String := [
 def smEnd : List String := [
   "defer {",
   "func {",
-  "call s.now",
-  "set plan.State.End = s.now()",
-  "call s.writeEverything",
+  "call v0.now",
+  "set v2.State.End = v0.now()",
+  "call v0.writeEverything",
   "}",
   "}",
-  "if req.Data.contCancel != nil {",
+  "if v1.Data.contCancel != nil {",
   "call Data.contCancel",
-  "if req.Data.contCheckResult != nil {",
-  "range req.Data.contCheckResult {",
+  "if v1.Data.contCheckResult != nil {",
+  "range v1.Data.contCheckResult {",
   "}",
   "}",
   "}",
-  "set req.Next = f.start",
+  "set v1.Next = v3.start",
   "call statemachine.Run",
-  "if err != nil {",
-  "if errors.Is(err, ErrInternalFailure) {",
+  "if v4 != nil {",
+  "if errors.Is(v4, ErrInternalFailure) {",
   "}",
   "}",
-  "set req.Next = nil",
-  "if req.Data.err != nil {",
-  "set req.Err = req.Data.err",
+  "set v1.Next = nil",
+  "if v1.Data.err != nil {",
+  "set v1.Err = v1.Data.err",
   "}",
   "return"
 ]
@@ -236,50 +238,50 @@ def execSeq : List String := [
   "defer {",
   "func {",
   "call store.UpdateSequence",
-  "if err != nil {",
+  "if v3 != nil {",
   "}",
   "}",
   "}",
-  "switch seq.State.Status {",
+  "switch v2.State.Status {",
   "case workflow.Completed:",
   "return",
   "case workflow.Failed:",
-  "range seq.Actions {",
-  "if action.State.Status == workflow.Failed {",
+  "range v2.Actions {",
+  "if v4.State.Status == workflow.Failed {",
   "return",
   "}",
   "}",
   "return",
   "}",
-  "set seq.State.Status = workflow.Running",
-  "call s.now",
-  "set seq.State.Start = s.now()",
+  "set v2.State.Status = workflow.Running",
+  "call v0.now",
+  "set v2.State.Start = v0.now()",
   "call store.UpdateSequence",
-  "if err != nil {",
+  "if v3 != nil {",
   "}",
   "defer {",
   "func {",
-  "call s.now",
-  "set seq.State.End = s.now()",
+  "call v0.now",
+  "set v2.State.End = v0.now()",
   "}",
   "}",
-  "range seq.Actions {",
-  "call s.runAction",
-  "if err != nil {",
-  "set seq.State.Status = workflow.Failed",
+  "range v2.Actions {",
+  "call v0.runAction",
+  "if v3 != nil {",
+  "set v2.State.Status = workflow.Failed",
   "return",
   "}",
   "}",
-  "set seq.State.Status = workflow.Completed",
+  "set v2.State.Status = workflow.Completed",
   "return"
 ]
 
 /-- expected skeleton of contChecksPassing in internal/execute/sm/sm.go -/
 def contChecksPassing : List String := [
-  "if len(d.blocks) == 0 {",
+  "if len(v0.blocks) == 0 {",
   "select {",
   "comm:",
-  "recv d.contCheckResult",
+  "recv v0.contCheckResult",
   "return",
   "default:",
   "return",
@@ -287,10 +289,10 @@ def contChecksPassing : List String := [
   "}",
   "select {",
   "comm:",
-  "recv d.contCheckResult",
+  "recv v0.contCheckResult",
   "return",
   "comm:",
-  "recv d.blocks[0].contCheckResult",
+  "recv v0.blocks[0].contCheckResult",
   "return",
   "default:",
   "}",
@@ -299,164 +301,164 @@ def contChecksPassing : List String := [
 
 /-- expected skeleton of Recovery in internal/execute/sm/recovery.go -/
 def recovery : List String := [
-  "call s.fixPlan",
-  "switch plan.State.Status {",
+  "call v0.fixPlan",
+  "switch v2.State.Status {",
   "case workflow.NotStarted:",
-  "set req.Next = s.Start",
+  "set v1.Next = v0.Start",
   "return",
   "case workflow.Completed, workflow.Failed, workflow.Stopped:",
-  "set req.Next = s.End",
+  "set v1.Next = v0.End",
   "return",
   "}",
   "call context.SetPlanID",
-  "range req.Data.Plan.Blocks {",
+  "range v1.Data.Plan.Blocks {",
   "}",
-  "set req.Data.contCheckResult = make(chan error, 1)",
-  "call s.writeEverything",
-  "set req.Next = s.PlanBypassChecks",
+  "set v1.Data.contCheckResult = make(chan error, 1)",
+  "call v0.writeEverything",
+  "set v1.Next = v0.PlanBypassChecks",
   "return"
 ]
 
 /-- expected skeleton of fixAction in internal/execute/sm/recovery.go -/
 def fixAction : List String := [
-  "if a.State.Status != workflow.Running {",
+  "if v0.State.Status != workflow.Running {",
   "return",
   "}",
-  "if len(a.Attempts) == 0 {",
+  "if len(v0.Attempts) == 0 {",
   "call resetAction",
   "return",
   "}",
-  "if a.Attempts[len(a.Attempts) - 1].End.IsZero() {",
-  "set a.Attempts = a.Attempts[:len(a.Attempts) - 1]",
+  "if v0.Attempts[len(v0.Attempts) - 1].End.IsZero() {",
+  "set v0.Attempts = v0.Attempts[:len(v0.Attempts) - 1]",
   "call fixAction",
   "return",
   "}",
-  "if a.Attempts[len(a.Attempts) - 1].Err == nil {",
-  "set a.State.Status = workflow.Completed",
-  "set a.State.End = a.Attempts[len(a.Attempts) - 1].End",
+  "if v0.Attempts[len(v0.Attempts) - 1].Err == nil {",
+  "set v0.State.Status = workflow.Completed",
+  "set v0.State.End = v0.Attempts[len(v0.Attempts) - 1].End",
   "return",
   "}",
-  "set a.State.Status = workflow.Failed",
-  "set a.State.End = a.Attempts[len(a.Attempts) - 1].End"
+  "set v0.State.Status = workflow.Failed",
+  "set v0.State.End = v0.Attempts[len(v0.Attempts) - 1].End"
 ]
 
 /-- expected skeleton of resetAction in internal/execute/sm/recovery.go -/
 def resetAction : List String := [
-  "set a.State.Status = workflow.NotStarted",
-  "set a.State.Start = time.Time{}",
-  "set a.State.End = time.Time{}",
-  "set a.Attempts = nil"
+  "set v0.State.Status = workflow.NotStarted",
+  "set v0.State.Start = time.Time{}",
+  "set v0.State.End = time.Time{}",
+  "set v0.Attempts = nil"
 ]
 
 /-- expected skeleton of fixChecks in internal/execute/sm/recovery.go -/
 def fixChecks : List String := [
-  "if c == nil {",
+  "if v0 == nil {",
   "return",
   "}",
-  "if c.State.Status != workflow.Running {",
+  "if v0.State.Status != workflow.Running {",
   "return",
   "}",
-  "set c.State.Status = workflow.NotStarted",
-  "set c.State.Start = time.Time{}",
-  "set c.State.End = time.Time{}",
-  "range c.Actions {",
+  "set v0.State.Status = workflow.NotStarted",
+  "set v0.State.Start = time.Time{}",
+  "set v0.State.End = time.Time{}",
+  "range v0.Actions {",
   "call resetAction",
   "}"
 ]
 
 /-- expected skeleton of fixSeq in internal/execute/sm/recovery.go -/
 def fixSeq : List String := [
-  "if s.State.Status != workflow.Running {",
+  "if v0.State.Status != workflow.Running {",
   "return",
   "}",
-  "range s.Actions {",
-  "if a.State.Status == workflow.Stopped {",
-  "stopped++",
+  "range v0.Actions {",
+  "if v2.State.Status == workflow.Stopped {",
+  "v1++",
   "}",
   "}",
-  "if stopped > 0 {",
-  "range s.Actions {",
-  "if a.State.Status == workflow.Running {",
-  "set a.State.Status = workflow.Stopped",
-  "set a.State.End = time.Now()",
+  "if v1 > 0 {",
+  "range v0.Actions {",
+  "if v2.State.Status == workflow.Running {",
+  "set v2.State.Status = workflow.Stopped",
+  "set v2.State.End = time.Now()",
   "}",
   "}",
-  "set s.State.Status = workflow.Stopped",
-  "set s.State.End = time.Now()",
+  "set v0.State.Status = workflow.Stopped",
+  "set v0.State.End = time.Now()",
   "return",
   "}",
-  "range s.Actions {",
+  "range v0.Actions {",
   "call fixAction",
-  "switch a.State.Status {",
+  "switch v2.State.Status {",
   "case workflow.Completed:",
-  "completed++",
+  "v3++",
   "case workflow.Running:",
-  "running++",
+  "v4++",
   "case workflow.Failed:",
-  "failed++",
+  "v5++",
   "case workflow.Stopped:",
-  "stopped++",
+  "v1++",
   "}",
   "}",
   "switch  {",
-  "case stopped > 0:",
-  "set s.State.Status = workflow.Stopped",
-  "set s.State.End = time.Now()",
-  "case failed > 0:",
-  "set s.State.Status = workflow.Failed",
-  "set s.State.End = time.Now()",
-  "case completed == 0 && running == 0:",
-  "set s.State.Status = workflow.NotStarted",
-  "set s.State.Start = time.Time{}",
-  "set s.State.End = time.Time{}",
-  "case completed == len(s.Actions):",
-  "set s.State.Status = workflow.Completed",
-  "set s.State.End = time.Now()",
+  "case v1 > 0:",
+  "set v0.State.Status = workflow.Stopped",
+  "set v0.State.End = time.Now()",
+  "case v5 > 0:",
+  "set v0.State.Status = workflow.Failed",
+  "set v0.State.End = time.Now()",
+  "case v3 == 0 && v4 == 0:",
+  "set v0.State.Status = workflow.NotStarted",
+  "set v0.State.Start = time.Time{}",
+  "set v0.State.End = time.Time{}",
+  "case v3 == len(v0.Actions):",
+  "set v0.State.Status = workflow.Completed",
+  "set v0.State.End = time.Now()",
   "}"
 ]
 
 /-- expected skeleton of exec in internal/execute/sm/actions/actions.go -/
 def actionsExec : List String := [
-  "if len(action.Attempts) > action.Retries {",
+  "if len(v2.Attempts) > v2.Retries {",
   "return",
   "}",
   "defer {",
   "func {",
-  "call updater.UpdateAction",
-  "if err != nil {",
+  "call v4.UpdateAction",
+  "if v5 != nil {",
   "}",
   "}",
   "}",
-  "call r.now",
+  "call v0.now",
   "defer {",
   "func {",
-  "set action.Attempts = append(action.Attempts, attempt)",
+  "set v2.Attempts = append(v2.Attempts, v6)",
   "}",
   "}",
   "call context.WithTimeout",
   "call run",
-  "call cancel",
-  "call r.now",
-  "set attempt.End = r.now()",
-  "if plugResp.timeout {",
-  "set attempt.Err = &plugins.Error{…}",
+  "call v8",
+  "call v0.now",
+  "set v6.End = v0.now()",
+  "if v9.timeout {",
+  "set v6.Err = &plugins.Error{…}",
   "return",
   "} else {",
-  "set attempt.Resp = plugResp.Resp",
-  "set attempt.Err = plugResp.Err",
+  "set v6.Resp = v9.Resp",
+  "set v6.Err = v9.Err",
   "}",
-  "if attempt.Resp != nil {",
-  "call plugin.Response",
-  "if !isType(attempt.Resp, expect) {",
+  "if v6.Resp != nil {",
+  "call v3.Response",
+  "if !isType(v6.Resp, v10) {",
   "call unexpectedTypeMsg",
-  "set attempt.Err = &plugins.Error{…}",
-  "set attempt.Resp = nil",
+  "set v6.Err = &plugins.Error{…}",
+  "set v6.Resp = nil",
   "}",
   "}",
-  "if attempt.Err == nil {",
+  "if v6.Err == nil {",
   "return",
   "}",
-  "if attempt.Err.Permanent {",
+  "if v6.Err.Permanent {",
   "call errPermanent",
   "return",
   "}",
@@ -467,32 +469,32 @@ def actionsExec : List String := [
 def actionsExecute : List String := [
   "call exponential.New",
   "call exponential.WithPolicy",
-  "call plugin.RetryPolicy",
-  "if err != nil {",
+  "call v3.RetryPolicy",
+  "if v6 != nil {",
   "}",
-  "call backoff.Retry",
+  "call v5.Retry",
   "func {",
-  "call r.exec",
+  "call v0.exec",
   "return",
   "}",
-  "set req.Data.err = backoff.Retry(req.Ctx, (func(ctx context.Context, record exponential.Record) error literal))",
-  "set req.Next = r.End",
+  "set v1.Data.err = v5.Retry(v1.Ctx, (func(v7 context.Context, v8 exponential.Record) error literal))",
+  "set v1.Next = v0.End",
   "return"
 ]
 
 /-- expected skeleton of examineChecks in internal/execute/sm/final.go -/
 def examineChecks : List String := [
-  "range checks {",
-  "if check == nil {",
+  "range v1 {",
+  "if v3 == nil {",
   "continue",
   "}",
-  "switch i {",
+  "switch v2 {",
   "case 0:",
   "case 1:",
   "case 2:",
   "case 3:",
   "}",
-  "switch check.State.Status {",
+  "switch v3.State.Status {",
   "case workflow.Completed:",
   "continue",
   "case workflow.Failed:",
@@ -506,10 +508,10 @@ def examineChecks : List String := [
 
 /-- expected skeleton of examineBypasses in internal/execute/sm/final.go -/
 def examineBypasses : List String := [
-  "if gates == nil {",
+  "if v1 == nil {",
   "return",
   "}",
-  "if gates.State.Status == workflow.Completed {",
+  "if v1.State.Status == workflow.Completed {",
   "return",
   "}",
   "return"
@@ -522,18 +524,18 @@ def plansStart : List String := [
   "call startMu.Unlock",
   "}",
   "call waiters.Get",
-  "if ok {",
+  "if v3 {",
   "return",
   "}",
   "call store.Read",
-  "if err != nil {",
+  "if v5 != nil {",
   "return",
   "}",
-  "call e.validateStartState",
-  "if err != nil {",
+  "call v0.validateStartState",
+  "if v5 != nil {",
   "return",
   "}",
-  "call e.runPlan",
+  "call v0.runPlan",
   "return"
 ]
 
@@ -547,16 +549,16 @@ def runPlan : List String := [
   "func {",
   "defer {",
   "func {",
-  "call cancel",
+  "call v4",
   "call stoppers.Del",
   "call waiters.Get",
   "call close",
   "call waiters.Del",
   "}",
   "}",
-  "if plan.State.Status == workflow.Running {",
+  "if v2.State.Status == workflow.Running {",
   "}",
-  "call e.runner",
+  "call v0.runner",
   "}"
 ]
 
@@ -565,31 +567,31 @@ def blockPreChecks : List String := [
   "defer {",
   "func {",
   "call store.UpdateBlock",
-  "if err != nil {",
+  "if v3 != nil {",
   "}",
   "}",
   "}",
-  "if h.block.PreChecks == nil || h.block.PreChecks.State.Status == workflow.Completed {",
-  "if h.block.PreChecks != nil && h.block.ContChecks != nil && h.block.ContChecks.State.Status != workflow.Completed {",
-  "call s.runChecksOnce",
-  "if err != nil {",
-  "set h.block.State.Status = workflow.Failed",
-  "set req.Data.err = err",
-  "set req.Next = s.BlockDeferredChecks",
+  "if v2.block.PreChecks == nil || v2.block.PreChecks.State.Status == workflow.Completed {",
+  "if v2.block.PreChecks != nil && v2.block.ContChecks != nil && v2.block.ContChecks.State.Status != workflow.Completed {",
+  "call v0.runChecksOnce",
+  "if v3 != nil {",
+  "set v2.block.State.Status = workflow.Failed",
+  "set v1.Data.err = v3",
+  "set v1.Next = v0.BlockDeferredChecks",
   "return",
   "}",
   "}",
-  "set req.Next = s.BlockStartContChecks",
+  "set v1.Next = v0.BlockStartContChecks",
   "return",
   "}",
-  "call s.runPreChecks",
-  "if err != nil {",
-  "set h.block.State.Status = workflow.Failed",
-  "set req.Data.err = err",
-  "set req.Next = s.BlockDeferredChecks",
+  "call v0.runPreChecks",
+  "if v3 != nil {",
+  "set v2.block.State.Status = workflow.Failed",
+  "set v1.Data.err = v3",
+  "set v1.Next = v0.BlockDeferredChecks",
   "return",
   "}",
-  "set req.Next = s.BlockStartContChecks",
+  "set v1.Next = v0.BlockStartContChecks",
   "return"
 ]
 
@@ -598,21 +600,21 @@ def planPreChecks : List String := [
   "defer {",
   "func {",
   "call store.UpdatePlan",
-  "if err != nil {",
+  "if v2 != nil {",
   "}",
   "}",
   "}",
-  "if skipRecoveredChecks(req.Data.Plan.PreChecks) {",
-  "set req.Next = s.PlanStartContChecks",
+  "if skipRecoveredChecks(v1.Data.Plan.PreChecks) {",
+  "set v1.Next = v0.PlanStartContChecks",
   "return",
   "}",
-  "call s.runPreChecks",
-  "if err != nil {",
-  "set req.Data.err = err",
-  "set req.Next = s.PlanDeferredChecks",
+  "call v0.runPreChecks",
+  "if v2 != nil {",
+  "set v1.Data.err = v2",
+  "set v1.Next = v0.PlanDeferredChecks",
   "return",
   "}",
-  "set req.Next = s.PlanStartContChecks",
+  "set v1.Next = v0.PlanStartContChecks",
   "return"
 ]
 
